@@ -154,6 +154,10 @@ func genC06(g engine.G) *engine.Case {
 		sc = engine.GenNasty(g)
 	}
 	sc.RawConverters = g.Pct(15)
+	if t := &sc.Target; g.Pct(10) && !t.HasErr && !t.Built && !t.Identity && t.OutForm == engine.FormPos {
+		// a final result of a concrete error type: an ordinary output
+		t.ConcreteErr = true
+	}
 	c := &engine.Case{Sc: sc, Reps: 2}
 	switch k := g.Int(0, 9); {
 	case k < 6:
